@@ -122,3 +122,26 @@ func (t *starve) Pick(s *Sim, P []*G) int {
 	}
 	return cand[s.Ch.Draw(len(cand))]
 }
+
+// holdOpen never releases a goroutine parked right after a START probe while another one is available: every
+// command that can start does start and stays open, which shows how many commands the system under test lets
+// run at once.
+type holdOpen struct{}
+
+func (*holdOpen) Name() string { return "holdopen" }
+func (*holdOpen) Pick(s *Sim, P []*G) int {
+	var cand []int
+	for i, g := range P {
+		if g.site == SiteWrite && strings.HasPrefix(g.LastLine, "S|") {
+			continue
+		}
+		cand = append(cand, i)
+	}
+	if len(cand) == 0 {
+		return s.Ch.Draw(len(P))
+	}
+	return cand[s.Ch.Draw(len(cand))]
+}
+
+// NewHoldOpen returns the hold-open strategy (used by the C07 progress check).
+func NewHoldOpen() Strategy { return &holdOpen{} }
